@@ -15,13 +15,13 @@ from ..symx import Expander, TupleV, ListV
 from ..ncf import M
 from .. import ncf, anf
 from ..anf import R, Unsupported
-from .common import struct_ob, formula_ob, guard, last_return, gradient_lists_in_order, U
+from .common import refresh_obligation, dtype_hazard_obligations, struct_ob, formula_ob, guard, last_return, gradient_lists_in_order, U
 from .gpm import gp_expander, refs, mob, REL, mean_first_layout, gradient_scatter
 from ..report import AnalysisError
 from ..term import Resolver, pmatch, find_all, abstract, anf_of
 from ..seq import Layouts, UNKNOWN, show
 
-FLOORS = {"lml-form": 2, "lml-gradient-form": 2, "factor-of": 2, "loo-form": 3, "loo-gradient-form": 2,
+FLOORS = {"state-refreshed": 1, "float-arithmetic": 1, "lml-form": 2, "lml-gradient-form": 2, "factor-of": 2, "loo-form": 3, "loo-gradient-form": 2,
           "slice-layout": 7, "bounds-passed": 2, "multistart": 1, "selector-wiring": 2}
 
 
@@ -367,6 +367,10 @@ def run(prog, tier):
                          f"`{U(calls[0][0]) if calls else None}`", REL, lb.lineno))
     c7, ms = prog.method("GpRegressor", "multistart_bfgs")
     obs.append(_multistart(prog, c7, ms))
+
+    obs.extend(dtype_hazard_obligations(prog, "float-arithmetic", ['inference/gp/regression.py']))
+
+    obs.append(refresh_obligation(prog, "state-refreshed", "GpRegressor", "set_hyperparameters"))
 
     meta = {
         "explanation": "Matrix normal form for the marginal likelihood, its value-and-gradient sibling and both gradient parts "
